@@ -38,7 +38,7 @@ def cases(tier, seed, args):
         out.append(dict(t='output', K=K, Kt=Kt, T=int(rng.choice([8, 16, 40, 64])), seed=int(rng.integers(1 << 30)),
                         avg_src=bool(i % 2), ci=float(10.0 ** rng.integers(-6, 7)) if i % 3 else 1.0,
                         cn=float(10.0 ** rng.integers(-6, 7)) if i % 3 == 1 else None,
-                        permute=bool(i % 4 != 0)))
+                        permute=bool(i % 4 != 0), regime=['dominant', 'mixed', 'dominant', 'shared'][(i // 4) % 4]))
     for i in range(20 if q else 200):
         out.append(dict(t='snr', T=int(rng.integers(8, 200)), D=int(rng.integers(1, 5)), seed=int(rng.integers(1 << 30)),
                         snr=float(rng.uniform(-30, 40)), inplace=bool(i % 2)))
@@ -69,7 +69,8 @@ def run_case(case):
         hi = 2 if case.get('small') else 6
         ref = rng.integers(-hi, hi + 1, size=(L, T))
         ref[:, 0] = np.where(np.abs(ref).sum(-1) == 0, 1, ref[:, 0])
-        est = ref * rng.integers(1, 3, size=(L, 1)) + rng.integers(-hi, hi + 1, size=(L, T))
+        # gain of either polarity: the optimal scaling alpha = <s, s_hat> / <s, s> carries the sign
+        est = ref * rng.choice([1, 2, -1, -2, 1, 2], size=(L, 1)) + rng.integers(-hi, hi + 1, size=(L, T))
         e, r = est * case['scale'], ref * case['scale_ref']
         d0 = (enc.digest(e), enc.digest(r))
         out, exc = _call(module_si_sdr.si_sdr, r.astype(np.float64), e.astype(np.float64))
@@ -103,6 +104,18 @@ def run_case(case):
         for k in range(K):
             im[k, tgt[k]] = rng.integers(-6, 7, size=T)
             im[k, tgt[k], 0] = 6
+        regime = case.get('regime', 'dominant')
+        if regime == 'mixed':          # no structure: the best selection is whatever the exhaustive search finds
+            im = rng.integers(-4, 5, size=(K, Kt, T))
+        elif regime == 'shared' and K >= 2:
+            # one strong source leaks into several outputs while the others are captured by one output only:
+            # taking the largest entries first is not optimal
+            im = rng.integers(-1, 2, size=(K, Kt, T))
+            im[0] = rng.integers(-6, 7, size=(Kt, T))
+            im[0, :, 0] = 6
+            for k in range(1, K):
+                im[k, tgt[k]] = rng.integers(-5, 6, size=T)
+                im[k, tgt[k], 0] = 5
         no = rng.integers(-2, 3, size=(Kt, T))
         ci = case['ci']
         cn = case['cn'] if case['cn'] is not None else ci
@@ -113,7 +126,7 @@ def run_case(case):
             o = dict(sdr=_mat(res.sdr, rows, 1), sir=_mat(res.sir, rows, 1), snr=_mat(res.snr, rows, 1))
         return [dict(kind='output', images=enc.aint(im), noise=enc.aint(no), gi=enc.flt(ci * ci), gn=enc.flt(cn * cn),
                      avg_src=case['avg_src'], exc=exc, out=o,
-                     fp=f'fn=output_sxr;avg_src={case["avg_src"]};permute={case["permute"]}', key=f'out:{case["seed"]}')]
+                     fp=f'fn=output_sxr;avg_src={case["avg_src"]};permute={case["permute"]};regime={regime}', key=f'out:{case["seed"]}')]
     if t == 'snr':
         D, T = case['D'], case['T']
         X = rng.normal(size=(D, T))
